@@ -65,6 +65,11 @@ def run(R, tier, seed):
     # longest counts first (better packing of the workers); results are put back into index order
     tprobe = {p['idx']: p['T'] for p in probes}
     tasks = [(R, seed, i, tier) for i in sorted(chosen, key=lambda i: (-tprobe.get(i, 0), i))]
+    # the probes (per-line hit counts of thousands of candidates) are no longer needed: every case child is forked
+    # from this process, and a fat parent makes every fork -- and every fork-at-instant below it -- slower
+    del probes
+    import gc       # pylint: disable=import-outside-toplevel
+    gc.collect()
     results = sorted(core.fork_map(_work, tasks, timeout=CASE_TIMEOUT[tier], what='C19 case'),
                      key=lambda r: r['idx'])
 
